@@ -163,10 +163,18 @@ def check(ctx, rep):
         not_cleared = not any(_inside(rec[0], t.body) for t in flag_tries)
         rep.ob('recursion.before-any-variable-touched', 'the self-call test precedes saving, binding and flag setting, and does not clear the caller`s flag',
                _pos(rec[0]) < first_touch and not_cleared, '', ctx.where(rec[0]))
-    # conversions
+    # conversions: every argument reaches its parameter converted to the parameter's type -- up front with
+    # TYPE_TO_CONV[sigil of the completed name], and in any case by Scalars.set (to_type(name[-1:], value)); since the
+    # bindings lie under the restoring finally, a conversion error raised at binding time restores the variables too
     conv = [a for a in main if isinstance(a, ast.Assign) and norm(a.targets[0]) == 'conversions']
-    rep.ob('arguments.converted-to-parameter-type', 'arguments are converted with TYPE_TO_CONV[completed name sigil]',
-           len(conv) == 1 and 'values.TYPE_TO_CONV[self._memory.complete_name(name)[-1:]]' in norm(conv[0].value), '', ctx.where(ev))
+    sset = ctx.fn('pcbasic/basic/memory/scalars.py:Scalars.set')
+    tc = dict((norm(a.targets[0]), norm(a.value)) for a in own_nodes(sset) if isinstance(a, ast.Assign) and isinstance(a.targets[0], ast.Name))
+    set_converts = any(isinstance(a, ast.Assign) and norm(a.targets[0]) == 'value' and norm(a.value) in ('values.to_type(type_char, value)', 'values.to_type(name[-1:], value)')
+                       for a in own_nodes(sset)) and tc.get('type_char', 'name[-1:]') == 'name[-1:]'
+    rep.ob('arguments.converted-to-parameter-type', 'Scalars.set converts the bound value to the type of the name it binds', set_converts, '', ctx.where(sset))
+    if conv:
+        rep.ob('arguments.converted-to-parameter-type', 'arguments are converted with TYPE_TO_CONV[completed name sigil]',
+               len(conv) == 1 and 'values.TYPE_TO_CONV[self._memory.complete_name(name)[-1:]]' in norm(conv[0].value), '', ctx.where(ev))
     t2c = ctx.mod('pcbasic/basic/values/values.py').assigns.get('TYPE_TO_CONV')
     got = dict((norm(k), norm(v)) for k, v in zip(t2c.keys, t2c.values)) if isinstance(t2c, ast.Dict) else {}
     rep.ob('arguments.converted-to-parameter-type', 'TYPE_TO_CONV maps each sigil to its conversion',
@@ -177,15 +185,21 @@ def check(ctx, rep):
     ok = len(rets) == 1 and isinstance(rets[0], ast.Call) and norm(rets[0].func) == 'values.to_type' and len(rets[0].args) == 2 \
         and norm(rets[0].args[0]) == 'self._sigil' and norm(rets[0].args[1]) in parsed
     rep.ob('result.converted', 'result of the parse is converted to the function sigil', ok, repr([norm(r) for r in rets]), ctx.where(ev))
-    # converted arguments are what gets bound
-    conv_loops = [s_ for s_ in main if isinstance(s_, ast.For) and norm(s_.iter) == 'zip(iargs, conversions)']
+    # what is collected in args is the argument itself (converted or not), and args is what gets bound
+    arg_loops = [s_ for s_ in main if isinstance(s_, ast.For) and 'iargs' in norm(s_.iter)]
     ok = False
-    if len(conv_loops) == 1 and isinstance(conv_loops[0].target, ast.Tuple):
-        a_name, c_name = [norm(e) for e in conv_loops[0].target.elts]
-        defs = dict((norm(a.targets[0]), norm(a.value)) for a in own_nodes(conv_loops[0]) if isinstance(a, ast.Assign))
-        appended = [norm(n.args[0]) for n in own_nodes(conv_loops[0]) if isinstance(n, ast.Call) and norm(n.func) == 'args.append']
-        ok = len(appended) == 1 and defs.get(appended[0]) == '%s(%s)' % (c_name, a_name)
-    rep.ob('arguments.converted-value-is-bound', 'the value appended to args is conv(arg)', ok, '', ctx.where(ev))
+    if len(arg_loops) == 1:
+        lp = arg_loops[0]
+        defs = dict((norm(a.targets[0]), norm(a.value)) for a in own_nodes(lp) if isinstance(a, ast.Assign))
+        appended = [norm(n.args[0]) for n in own_nodes(lp) if isinstance(n, ast.Call) and norm(n.func) == 'args.append']
+        if isinstance(lp.target, ast.Tuple) and norm(lp.iter) == 'zip(iargs, conversions)':
+            a_name, c_name = [norm(e) for e in lp.target.elts]
+            ok = len(appended) == 1 and (defs.get(appended[0]) in ('%s(%s)' % (c_name, a_name), a_name) or (appended[0] == a_name and a_name not in defs))
+        elif isinstance(lp.target, ast.Name) and norm(lp.iter) == 'iargs':
+            ok = appended == [lp.target.id] and lp.target.id not in defs
+    rep.ob('arguments.converted-value-is-bound', 'the value collected for binding is the argument (converted with its own conversion, or as given)', ok, '', ctx.where(ev))
+    zipped = [norm(s_.iter) for s_ in main if isinstance(s_, ast.For) and any(b_ in list(own_nodes(s_)) for b_ in binds)]
+    rep.ob('arguments.converted-value-is-bound', 'parameters are bound pairwise from the collected arguments', zipped == ['zip(varnames, args)'], repr(zipped), ctx.where(ev))
     # GC roots: registered where they are created, released in a finally that runs whenever one was registered
     held = []   # (description, value-text, node)
     for n in main:
@@ -249,8 +263,11 @@ def variants(ctx):
            in_ev(lambda fn: mu.remove_stmt(fn, lambda st: isinstance(st, ast.For) and 'temp_values.remove(arg)' in norm(st))), expect='gc-roots.released'),
         Va('parse-before-try', 'break', UF, in_ev(lambda fn: _hoist_parse(fn)), expect='structure.parse'),
         Va('arguments-registered-outside-protected-region', 'break', UF, in_ev(lambda fn: _hoist_registration(fn)), expect='gc-roots.released'),
-        Va('no-argument-conversion', 'break', UF,
-           in_ev(lambda fn: mu.replace_stmt(fn, mu.text_is('value = conv(arg)'), 'value = arg')), expect='arguments.converted'),
+        Va('no-argument-conversion', 'neutral', UF,   # neutral since 040204ed: Scalars.set converts, under the restoring finally
+           in_ev(lambda fn: mu.replace_stmt(fn, mu.text_is('value = conv(arg)'), 'value = arg'))),
+        Va('wrong-value-collected-for-binding', 'break', UF,
+           in_ev(lambda fn: mu.replace_stmt(fn, mu.text_is('args.append(value)'), 'args.append(conv)')), expect='arguments.converted-value-is-bound'),
+        Va('conversion-deferred-to-binding', 'neutral', UF, in_ev(lambda fn: _defer_conversion(fn))),
         Va('rename-save-loc', 'neutral', UF, in_ev(lambda fn: mu.rename_local(fn, 'value', 'val'))),
     ]
 
@@ -294,4 +311,17 @@ def _hoist_registration(fn):
     for m in moved:
         tr.body.remove(m)
     blk[i:i] = moved
+    return True
+
+
+def _defer_conversion(fn):
+    """Seeded change C20c, behaviour-neutral since the bindings lie under the restoring finally (040204ed)."""
+    ok = mu.remove_stmt(fn, lambda st: isinstance(st, ast.Assign) and norm(st.targets[0]) == 'conversions')
+    loops = [l for l in ast.walk(fn) if isinstance(l, ast.For) and norm(l.iter) == 'zip(iargs, conversions)']
+    if not ok or len(loops) != 1:
+        return False
+    lp = loops[0]
+    lp.target = ast.Name(id='value', ctx=ast.Store())
+    lp.iter = ast.parse('iargs', mode='eval').body
+    lp.body = [st for st in lp.body if norm(st) != 'value = conv(arg)']
     return True
